@@ -28,7 +28,7 @@ def run(tier):
     rep.assume('MEMPTR is not specified by the ISA oracle: Python-vs-C MEMPTR equality is bounded only')
     # P: both Python classes against the same oracle (so they agree with each other on everything but T/MEMPTR)
     out = simrun.run_all(nx=4 if tier == 'quick' else 40)
-    simprops.gather(rep, out, lambda kind, cmio: simprops.is_func(kind, cmio), lambda d: d.startswith('post.') or d.startswith('frame.'), 'C06')
+    simprops.gather(rep, out, lambda kind, cmio: simprops.is_func(kind, cmio) or simprops.is_timing(kind, cmio), lambda d: d.startswith('post.') or d.startswith('frame.'), 'C06')
     # B: the C side
     env = dict(os.environ)
     env['PYTHONPATH'] = '%s:%s' % (os.environ.get('VERIF_REPO', '/repo'), common.ROOT)
